@@ -4,6 +4,7 @@ package checks
 
 import (
 	"fmt"
+	"math/big"
 	"strings"
 	"time"
 
@@ -361,6 +362,82 @@ func c06RefusalUnderStoreFault() vh.Unit {
 	}}
 }
 
+// a captured, already honoured request submitted again with its identity spelled differently
+// (case, 0x prefix): refused like any replay, and nothing moves
+func c06RespelledReplays() vh.Unit {
+	name := "respelled-replays"
+	cast := vh.StdCast()
+	return vh.Unit{Name: name, Run: func(u *vh.U) {
+		for _, endpoint := range vh.SignedEndpoints {
+			victim := cast.ByName["C1"]
+			if endpoint == "vipnode_host" {
+				victim = cast.ByName["H1"]
+			}
+			if vh.IsWalletEndpoint(endpoint) {
+				victim = cast.ByName["W1"]
+			}
+			vsched.ResetClock(0)
+			pw := vh.NewPoolWorld(vh.PoolConfig{Driver: vh.Memory})
+			for _, e := range c06Session {
+				vh.PoolEvent(pw, cast, e)
+			}
+			pw.Store.AddAccountBalance(store.Account(cast.ByName["W1"].Wallet), big.NewInt(700))
+			now := vsched.Now().UnixNano()
+			target := cast.ByName["H1"].NodeID
+			if endpoint == "pool_addNode" {
+				target = cast.ByName["C2"].NodeID
+				pw.Store.SetNode(store.Node{ID: store.NodeID(target), Kind: "geth", LastSeen: vsched.Now()})
+			}
+			honoured := vh.NewCall(endpoint, victim, now+200, vh.DefaultParam(endpoint, target))
+			ctx := vh.CtxWith(pw.Host("x").Service())
+			if _, err := honoured.Invoke(pw, ctx); vh.IsRefused(err) {
+				u.Violate("c06/setup/valid-request-refused", fmt.Sprintf("%s by %s: %v", endpoint, victim.Name, err), nil)
+				continue
+			}
+			id := honoured.ID
+			body := strings.TrimPrefix(id, "0x")
+			spellings := map[string]string{
+				"upper": strings.ToUpper(body), "lower": strings.ToLower(body),
+				"mixed": strings.ToUpper(body[:1]) + strings.ToLower(body[1:len(body)-1]) + strings.ToUpper(body[len(body)-1:]),
+			}
+			var variants []string
+			for _, sp := range []string{"upper", "lower", "mixed"} {
+				variants = append(variants, spellings[sp], "0x"+spellings[sp], "0X"+spellings[sp])
+			}
+			seen := map[string]bool{id: true}
+			for _, v := range variants {
+				if seen[v] {
+					continue
+				}
+				seen[v] = true
+				pw.Host("attacker-conn")
+				before := poolDigest(pw, cast) + nodeView(pw, victim)
+				settles := len(pw.Settles)
+				replay := honoured
+				replay.ID = v
+				var err error
+				p := vh.Recover(func() { _, err = replay.Invoke(pw, vh.CtxWith(pw.Host("attacker-conn").Service())) })
+				after := poolDigest(pw, cast) + nodeView(pw, victim)
+				u.R.Evaluations++
+				u.R.States++
+				u.R.Transitions++
+				u.R.Traces++
+				u.Observe(fmt.Sprintf("%s respelled refused=%v", endpoint, vh.IsRefused(err)))
+				desc := fmt.Sprintf("the honoured %s of %s submitted again with its identity spelled %q...", endpoint, victim.Name, v[:8])
+				switch {
+				case p != "":
+					u.Violate("c06/"+endpoint+"/panic/respelled-replay", desc+": panic: "+p, nil)
+				case !vh.IsRefused(err):
+					u.Violate("c06/"+endpoint+"/not-refused/respelled-replay", fmt.Sprintf("%s: err=%v", desc, err), nil)
+				case before != after || len(pw.Settles) != settles:
+					u.Violate("c06/"+endpoint+"/refused-request-left-trace/respelled-replay", fmt.Sprintf("%s: state changed\n before %s\n after  %s", desc, before, after), nil)
+				}
+			}
+		}
+		u.Sample("every endpoint: the honoured request replayed under up to 9 other spellings of its identity")
+	}}
+}
+
 func nodeView(pw *vh.PoolWorld, id *vh.Ident) string {
 	return "|" + vh.StoreView(pw.Raw, []string{id.NodeID}, []string{id.Wallet, id.NodeID})
 }
@@ -386,7 +463,7 @@ func init() {
 			if tier == "thorough" {
 				burst = 1500
 			}
-			us = append(us, c06Burst(burst), c06RefusalUnderStoreFault())
+			us = append(us, c06Burst(burst), c06RefusalUnderStoreFault(), c06RespelledReplays())
 			return us
 		},
 	})
